@@ -70,6 +70,11 @@ theorem fieldCheck_sound (T : Table) (ok : Kind → Bool) (f : FieldSpec) (h : V
       · have := noIdent_sound T _ _ hc.1 hk
         simp [fieldLawful, this, hok hc.2]
       · simp [fieldLawful, hok hc]
+      -- orderedContent
+      · have := noIdent_sound T _ _ hc.1 hk
+        simp [fieldLawful, this, hok hc.2]
+      · have := noIdent_sound T _ _ hc.1 hk
+        simp [fieldLawful, this, hok hc.2]
       -- orderedItems
       · have hi := noIdent_sound T _ _ hc.1.1 hk
         have hd := noDict_sound T _ _ hc.1.2 hk
